@@ -172,6 +172,26 @@ for _getter, _conv, _vtype in (("getint", "int", "int"), ("getfloat", "float", "
                      "implies(%s and not is_a(%s, %s), result == conv_result(%s, %s))" % (PRESENT, VALUE, _vtype, _conv, VALUE),
              })
 
+# -- the namespace view delegates to the same getters under the scoped name ("<namespace>.<name>", the bare name without one) -----
+shape("UserDataNamespace", namespace="str", data="ref:UserData")
+contract(U + "UserDataNamespace.make_scoped", props=P, params={"namespace": "str", "name": "str"}, result="str", pure=True,
+         ensures={"namespace-dot-name-or-the-bare-name": "result == (name if not namespace else '%s.%s' % (namespace, name))"})
+NSNAME = "(name if not self.namespace else '%s.%s' % (self.namespace, name))"
+NPRESENT = "ud_has(self.data, %s)" % NSNAME
+NVALUE = "ud_value(self.data, %s)" % NSNAME
+for _getter, _conv, _vtype in (("getint", "int", "int"), ("getfloat", "float", "float"), ("getbool", "parse_bool", "bool")):
+    contract(U + "UserDataNamespace." + _getter, props=P, params={"self": "ref:UserDataNamespace", "name": "str", "default": "any"},
+             self_classes=["UserDataNamespace"], result="any", globals=TYPES,
+             raises=[Raises("ValueError", when="%s and not is_a(%s, %s) and conv_fails(%s, %s)" % (NPRESENT, NVALUE, _vtype, _conv, NVALUE),
+                            label="unconvertible-text-of-a-present-scoped-name")],
+             ensures={
+                 "a-missing-scoped-name-yields-the-given-default": "implies(not %s, result == default)" % NPRESENT,
+                 "a-present-value-of-the-getter-type-is-kept":
+                     "implies(%s and is_a(%s, %s), result == %s)" % (NPRESENT, NVALUE, _vtype, NVALUE),
+                 "any-other-present-value-is-converted-by-the-getter-converter":
+                     "implies(%s and not is_a(%s, %s), result == conv_result(%s, %s))" % (NPRESENT, NVALUE, _vtype, _conv, NVALUE),
+             })
+
 # -- pyproject.toml reader: which key each file option is stored under --------------------------------------------------
 oracle("toml_data", ["val"], "val")
 contract("abs:file.enter", trusted=True, pos_params=[], pure=True, doc="open(path, 'rb').__enter__")
@@ -273,6 +293,8 @@ prop("C20", level="other", bounded=[],
                  "and converts any other present value (also a falsy one), raising ValueError iff that conversion fails; "
                  "the typed getters getint / getfloat / getbool are checked as callers of that contract (converter int / float / "
                  "parse_bool, wanted type int / float / bool, the caller's default passed through); "
+                 "UserDataNamespace.make_scoped gives '<namespace>.<name>' (the bare name without a namespace) and the namespace "
+                 "getters are the same getters of the underlying user data under that scoped name; "
                  "read_configparser and read_toml_config never store file tags under 'tags' (they go to config_tags, so --tags "
                  "on the command line wins) and return a new dictionary. Bounded: the option table itself (every option x {absent, file, command "
                  "line, both}), configparser / argparse, the values read_toml_config stores, format/outfiles coupling",
